@@ -143,6 +143,38 @@ CHECKS["C09"] = dict(
     ref="DESIGN.md section 7 C09",
 )
 
+CHECKS["C03"] = dict(
+    module="MetricData",
+    technique="TLA+ reference semantics of metric blocks (TLC: algebra of the merge on all small cases) + TLC as judge of recorded compactions of the real kv family / metric-data merger",
+    text=("MetricData.tla defines a block as a set of (series, field, slot, value) cells and the reference merge per "
+          "field type; TLC checks on every triple of small blocks (36k cases per type set) that compacting in steps, "
+          "with overlapping level-1 files or all at once gives the same reader-visible cells. The harness writes random "
+          "blocks (series ids across 65536 boundaries, field subsets, disjoint/overlapping/nested slot ranges, tiny max "
+          "file size so outputs split) with the real metricsdata.Flusher through a real kv flusher, runs Family.Compact() "
+          "with the registered MetricDataMerger up to three rounds (level 0 + level 1), reads every metric before and "
+          "after through Snapshot.Load + metricsdata.NewReader + the query data loader, and TLC requires after = "
+          "reference merge(before): exact for sum/min/max, a contributed value for first/last, identical cell domain."),
+    note=("Trusted: TLC, Json module, the harness' block generator and cell reader (the read path is lindb's own). "
+          "Values are integral so float aggregation is exact. Input shapes are sampled, not enumerated."),
+    ref="DESIGN.md section 7 C03",
+)
+CHECKS["C04"] = dict(
+    module="MetricData",
+    technique="TLA+ reference semantics of rollup (target slot = base + slot div ratio, each source file once) checked by TLC on all small cases + TLC as judge of rollups run by a real engine, re-triggered, after restart and from crash images at every manifest commit of the rollup job",
+    text=("The reference RollupOK states which target cell every source cell feeds and that every source block counts "
+          "exactly once; TLC verifies on the small universe that rolling up a compacted source equals rolling up the "
+          "original files. A real tsdb engine (10s source; 5min and 1h targets, i.e. the day->month and day->year "
+          "calculators) writes and flushes points of one source family at hours 0/1/11/12/22/23 of five dates "
+          "(leap day, month and year ends), optionally compacts the source first, then ForceRollup is run, run again, "
+          "run after an engine restart, and run after restarting from the directory image taken after each manifest "
+          "commit of the rollup job; each time the target stores' blocks must equal the reference and live in the "
+          "segment/family the civil date dictates."),
+    note=("Trusted: TLC, Json module, the engine setup of the harness, the seam wrapper used to take the images. Base "
+          "slot and expected target family are computed from the civil date by the harness, not by lindb's calculators "
+          "(those are C13). TZ=UTC."),
+    ref="DESIGN.md section 7 C04",
+)
+
 NOT_YET = {
 }
 
